@@ -112,6 +112,21 @@ def cases(tier, rng):
     for a in reps:
         for b in reps:
             yield Case("scales.eq", list(a) + list(b), "eq")
+    # scales of ONE class: same tonic (equal), other octave count, other tonic, and tonics that give the same display name but
+    # other notes (Chromatic on a major key and on the minor key of the same letter; Diatonic with other half-step places)
+    same = []
+    for kind in PAT:
+        ts = tonics_for(kind, 1)
+        t1, t2 = ts[0], ts[len(ts) // 2]
+        same += [((kind, t1, 1, []), (kind, t1, 1, [])), ((kind, t1, 1, []), (kind, t1, 2, [])), ((kind, t1, 1, []), (kind, t2, 1, [])),
+                 ((kind, t2, 2, []), (kind, t2, 2, []))]
+    for M, m in (("C", "c"), ("A", "a"), ("Eb", "eb"), ("F#", "f#"), ("G", "g")):
+        same += [(("Chromatic", M, 1, []), ("Chromatic", m, 1, [])), (("Chromatic", m, 1, []), ("Chromatic", M, 1, [])),
+                 (("Chromatic", m, 2, []), ("Chromatic", m, 2, []))]
+    same += [(("Diatonic", "C", 1, [3, 7]), ("Diatonic", "C", 1, [2, 5])), (("Diatonic", "C", 1, [3, 7]), ("Diatonic", "C", 1, [3, 7])),
+             (("Diatonic", "D", 1, [2, 6]), ("Diatonic", "D", 2, [2, 6]))]
+    for a, b in same:
+        yield Case("scales.eq", list(a) + list(b), "eq/same-class")
     pool = [l + a for l in LETTERS for a in ("", "#", "b")]
     for k in range(0, n + 1):
         for sub in itertools.combinations(pool, k):
